@@ -161,7 +161,7 @@ def index_out_of_range(op, desc):
     i1 = int(m.group(4)) if m.group(4) is not None else None
     i2 = int(m.group(5)) if m.group(5) is not None else None
     if op == 'GEOSGetGeometryN_r':
-        return i1 is not None and not (0 <= i1 < max(n, 1))
+        return i1 is not None and not (0 <= i1 < n)
     if op == 'GEOSGetInteriorRingN_r':
         return i1 is not None and not (0 <= i1 < mm)
     if op == 'GEOSGeomGetPointN_r':
